@@ -14,9 +14,16 @@ RULE = ("drivers: all ordered pairs of placements (bit range of a 4-bit signal x
         "(Instance output | memory read-port data | IOBufferInstance i) x range; output x output; placements and outputs "
         "x ports (dir None / Input / Output); If-wrapped statements; mixed-width arrays; zero-width targets. "
         "cycles: seeded dependency graphs over <= 6 signal bits from slices, Cat, ~ & | ^, Mux, If conditions and one "
-        "word-level '+', each in a cyclic variant and with one edge cut (or moved to a sync domain), incl. bits of one "
-        "signal feeding other bits of the same signal; the pre-check netlist of the real emitter is serialised and "
-        "every cell's comb_edges_to/output_nets/comb_edges_is_per_bit is compared with the model. "
+        "word-level operator (+ - * << >> < ==), each in a cyclic variant and with one edge cut (or moved to a sync "
+        "domain), incl. bits of one signal feeding other bits of the same signal; per CELL KIND (every unary/binary "
+        "Operator incl. signed variants on either operand, Mux data/select, Part with dynamic offset on value/offset, "
+        "static slices, Matches with don't-care patterns, array element index/element, If / Switch-Case conditions, "
+        "partial AssignmentList, FlipFlop, async/sync memory read port, IOBuffer o/oe, Instance, AnyConst, Initial, "
+        "Print/Assert) a cycle entering and leaving the cell at the SAME bit index (0, 2, 3) and at DIFFERENT ones "
+        "(up, down), each with an acyclic twin, plus a = a << s style whole-word forms; every design is compared with "
+        "the generator's own bit-level dependency graph (ground truth) and the model verdict; the pre-check netlist of "
+        "the real emitter is serialised and every cell's comb_edges_to / output_nets / comb_edges_is_per_bit (every "
+        "output bit) is compared with the model. "
         "non-trivial = at least two drivers (drv) / at least one comb edge between signal bits (cyc); distinct by case hash")
 MODELLED = ("NetlistEmitter.emit_assign / emit_fragment order / emit_drivers / connect / emit_top_ports, "
             "Module._add_statement + LHSMaskCollector, every _nir cell's comb_edges_to / comb_edges_is_per_bit / "
@@ -372,74 +379,176 @@ def gen_drv(tier, rng):
 
 
 # ------------------------------------------------------------------ cycle designs
-# expression grammar: ["b", sid, i] | ["sl", sid, lo, hi] | ["c", v, w] | ["not", e] | ["and"|"or"|"xor"|"add", e, e]
-#                     | ["mux", e1bit, e, e] | ["cat", [e..]]
-# statement: [domain, sid, lo, hi, expr, cond_expr | None]
-def ewidth(e, sigw):
+# expression grammar (all leaves unsigned):
+#   ["b", sid, i] | ["sl", sid, lo, hi] | ["c", v, w] | ["any", w] (AnyConst) | ["init"] (Initial())
+#   ["cat", [e..]] | ["esl", e, lo, hi] | ["sgn", e] (as_signed)                       -- wiring, no cell
+#   ["not", e] | ["and"|"or"|"xor", e, e] | ["mux", e1bit, e, e]                        -- per-bit cells
+#   ["neg"|"bool"|"rany"|"rall"|"rxor", e]                                              -- word-level unary
+#   ["add"|"sub"|"mul"|"div"|"mod"|"shl"|"shr"|"eq"|"ne"|"lt"|"le"|"gt"|"ge", e, e]     -- word-level binary
+#   ["bsel"|"wsel", e, off_e, w] (Part, dynamic offset) | ["matches", e, [patterns]] (Match)
+#   ["arr", idx_e, [e..]] (Array(...)[idx] on the right-hand side: Match + AssignmentList)
+# statement: [domain, sid, lo, hi, expr, cond] with cond None | expr (If) | ["case", expr, pattern] (Switch/Case)
+#   or a dict: {"mem": "comb"|"a", "addr": e1bit, "sid", "lo", "hi"}   read-port data on signal bits
+#              {"iob": o_expr, "oe": e1bit, "sid", "lo", "hi"}         bidirectional IOBufferInstance, i on signal bits
+#              {"inst": expr, "sid", "lo", "hi"}                       Instance input / output
+#              {"print": expr} | {"assert": expr} | {"wport": expr}    cells without outputs
+WORD1 = ("neg", "bool", "rany", "rall", "rxor")
+WORD2 = ("add", "sub", "mul", "div", "mod", "shl", "shr", "eq", "ne", "lt", "le", "gt", "ge")
+BIT2 = ("and", "or", "xor")
+
+
+def _unify(a, b):
+    (wa, sa), (wb, sb) = a, b
+    if sa == sb:
+        return (max(wa, wb), sa)
+    if sa:
+        return (max(wa, wb + 1), True)
+    return (max(wa + 1, wb), True)
+
+
+def eshape(e, sigw=None):
+    """(width, signed) by the documented shape rules (checked against the real value in build_cyc)"""
     k = e[0]
     if k == "b":
-        return 1
+        return (1, False)
     if k == "sl":
-        return e[3] - e[2]
-    if k == "c":
-        return e[2]
-    if k == "not":
-        return ewidth(e[1], sigw)
-    if k in ("and", "or", "xor"):
-        return max(ewidth(e[1], sigw), ewidth(e[2], sigw))
-    if k == "add":
-        return max(ewidth(e[1], sigw), ewidth(e[2], sigw)) + 1
-    if k == "mux":
-        return max(ewidth(e[2], sigw), ewidth(e[3], sigw))
+        return (e[3] - e[2], False)
+    if k in ("c", "any"):
+        return (e[-1], False)
+    if k == "init":
+        return (1, False)
     if k == "cat":
-        return sum(ewidth(p, sigw) for p in e[1])
+        return (sum(eshape(p)[0] for p in e[1]), False)
+    if k == "esl":
+        return (e[3] - e[2], False)
+    if k == "sgn":
+        return (eshape(e[1])[0], True)
+    if k == "not":
+        return eshape(e[1])
+    if k in BIT2:
+        return _unify(eshape(e[1]), eshape(e[2]))
+    if k == "mux":
+        return _unify(eshape(e[2]), eshape(e[3]))
+    if k == "neg":
+        return (eshape(e[1])[0] + 1, True)
+    if k in ("bool", "rany", "rall", "rxor", "eq", "ne", "lt", "le", "gt", "ge", "matches"):
+        return (1, False)
+    if k in ("bsel", "wsel"):
+        return (e[3], False)
+    if k == "arr":
+        sh = eshape(e[2][0])
+        for p in e[2][1:]:
+            sh = _unify(sh, eshape(p))
+        return sh
+    (wa, sa), (wb, sb) = eshape(e[1]), eshape(e[2])
+    if k == "add":
+        w, sg = _unify((wa, sa), (wb, sb))
+        return (w + 1, sg)
+    if k == "sub":
+        w, sg = _unify((wa, sa), (wb, sb))
+        return (w + 1, True)
+    if k == "mul":
+        return (wa + wb, sa or sb)
+    if k == "div":
+        return (wa + (1 if sb else 0), sa or sb)
+    if k == "mod":
+        return (wb, sb)
+    if k == "shl":
+        return (wa + 2 ** wb - 1, sa)
+    if k == "shr":
+        return (wa, sa)
     raise ValueError(k)
 
 
-def edeps(e, sigw):
-    """ground truth: per result bit, the set of (sid, bit) it depends on"""
+def ewidth(e, sigw=None):
+    return eshape(e)[0]
+
+
+def _ext(d, signed, n):
+    """value extension to n bits: zero bits depend on nothing, sign bits on the MSB"""
+    d = list(d[:n])
+    while len(d) < n:
+        d.append(set(d[-1]) if (signed and d) else set())
+    return d
+
+
+def _all(d):
+    out = set()
+    for x in d:
+        out |= x
+    return out
+
+
+def edeps(e, sigw=None):
+    """ground truth: per result bit, the set of (sid, bit) it depends on.  Word-level cells (arithmetic, shifts,
+    comparisons, reductions, part-selects, pattern matches) depend on every operand bit at every result bit."""
     k = e[0]
+    w, _sg = eshape(e)
     if k == "b":
         return [{(e[1], e[2])}]
     if k == "sl":
         return [{(e[1], i)} for i in range(e[2], e[3])]
-    if k == "c":
-        return [set() for _ in range(e[2])]
-    if k == "not":
-        return edeps(e[1], sigw)
-    if k in ("and", "or", "xor"):
-        a, b = edeps(e[1], sigw), edeps(e[2], sigw)
-        n = max(len(a), len(b))
-        return [(a[i] if i < len(a) else set()) | (b[i] if i < len(b) else set()) for i in range(n)]
-    if k == "add":
-        a, b = edeps(e[1], sigw), edeps(e[2], sigw)
-        allb = set().union(*a, *b) if a or b else set()
-        return [set(allb) for _ in range(max(len(a), len(b)) + 1)]
-    if k == "mux":
-        c = edeps(e[1], sigw)
-        call = set().union(*c) if c else set()
-        a, b = edeps(e[2], sigw), edeps(e[3], sigw)
-        n = max(len(a), len(b))
-        return [call | (a[i] if i < len(a) else set()) | (b[i] if i < len(b) else set()) for i in range(n)]
+    if k in ("c", "any", "init"):
+        return [set() for _ in range(w)]
     if k == "cat":
         out = []
         for p in e[1]:
-            out += edeps(p, sigw)
+            out += edeps(p)
         return out
+    if k == "esl":
+        return edeps(e[1])[e[2]:e[3]]
+    if k in ("sgn", "not"):
+        return edeps(e[1])
+    if k in BIT2:
+        a = _ext(edeps(e[1]), eshape(e[1])[1], w)
+        b = _ext(edeps(e[2]), eshape(e[2])[1], w)
+        return [a[i] | b[i] for i in range(w)]
+    if k == "mux":
+        c = _all(edeps(e[1]))
+        a = _ext(edeps(e[2]), eshape(e[2])[1], w)
+        b = _ext(edeps(e[3]), eshape(e[3])[1], w)
+        return [c | a[i] | b[i] for i in range(w)]
+    if k in WORD1 or k == "matches":
+        allb = _all(edeps(e[1]))
+        return [set(allb) for _ in range(w)]
+    if k in WORD2 or k in ("bsel", "wsel"):
+        allb = _all(edeps(e[1])) | _all(edeps(e[2]))
+        return [set(allb) for _ in range(w)]
+    if k == "arr":
+        idx = _all(edeps(e[1]))
+        els = [_ext(edeps(p), eshape(p)[1], w) for p in e[2]]
+        return [idx | _all([el[i] for el in els]) for i in range(w)]
     raise ValueError(k)
 
 
-def gt_cyclic(c):
-    sigw = c["sigw"]
+def gt_graph(c):
     g = {}
-    for dom, sid, lo, hi, e, cond in c["st"]:
+
+    def add(sid, lo, hi, per_bit, common):
+        for i in range(lo, hi):
+            src = per_bit[i - lo] if i - lo < len(per_bit) else set()
+            g.setdefault((sid, i), set()).update(src | common)
+    for st in c["st"]:
+        if isinstance(st, dict):
+            if "mem" in st:
+                if st["mem"] == "comb":
+                    add(st["sid"], st["lo"], st["hi"], [], _all(edeps(st["addr"])))
+            elif "iob" in st:
+                add(st["sid"], st["lo"], st["hi"], edeps(st["iob"]), _all(edeps(st["oe"])))
+            continue       # instance outputs, prints, asserts, write ports: no comb path to a signal
+        dom, sid, lo, hi, e, cond = st
         if dom != "comb":
             continue
-        d = edeps(e, sigw)
-        cd = set().union(*edeps(cond, sigw)) if cond is not None else set()
-        for i in range(lo, hi):
-            src = d[i - lo] if i - lo < len(d) else set()
-            g.setdefault((sid, i), set()).update(src | cd)
+        d = _ext(edeps(e), eshape(e)[1], hi - lo)
+        cd = set()
+        if cond is not None:
+            cd = _all(edeps(cond[1] if cond[0] == "case" else cond))
+        add(sid, lo, hi, d, cd)
+    return g
+
+
+def gt_cyclic(c):
+    g = gt_graph(c)
     WHITE, GREY, BLACK = 0, 1, 2
     col = {}
 
@@ -455,10 +564,19 @@ def gt_cyclic(c):
 
 
 def build_cyc(c):
-    from amaranth.hdl import Module, Signal, Cat, Const, Mux
+    from amaranth.hdl._ast import AnyConst, Initial
+    from amaranth.hdl import (Module, Signal, Cat, Const, Mux, Array, Print, Assert, Instance,
+                              IOBufferInstance, IOPort, MemoryData, MemoryInstance)
     sig = {int(k): Signal(w, name=f"s{k}") for k, w in c["sigw"].items()}
+    cnt = [0]
 
     def ex(e):
+        v = ex0(e)
+        if (len(v), v.shape().signed) != eshape(e):
+            raise ValueError(f"harness shape table wrong for {e}: {v.shape()} vs {eshape(e)}")
+        return v
+
+    def ex0(e):
         k = e[0]
         if k == "b":
             return sig[e[1]][e[2]]
@@ -466,29 +584,78 @@ def build_cyc(c):
             return sig[e[1]][e[2]:e[3]]
         if k == "c":
             return Const(e[1], e[2])
-        if k == "not":
-            return ~ex(e[1])
-        if k == "and":
-            return ex(e[1]) & ex(e[2])
-        if k == "or":
-            return ex(e[1]) | ex(e[2])
-        if k == "xor":
-            return ex(e[1]) ^ ex(e[2])
-        if k == "add":
-            return ex(e[1]) + ex(e[2])
-        if k == "mux":
-            return Mux(ex(e[1]), ex(e[2]), ex(e[3]))
+        if k == "any":
+            return AnyConst(e[1])
+        if k == "init":
+            return Initial()
         if k == "cat":
             return Cat(*[ex(p) for p in e[1]])
-        raise ValueError(k)
+        if k == "esl":
+            return ex(e[1])[e[2]:e[3]]
+        if k == "sgn":
+            return ex(e[1]).as_signed()
+        if k == "not":
+            return ~ex(e[1])
+        if k == "mux":
+            return Mux(ex(e[1]), ex(e[2]), ex(e[3]))
+        if k == "neg":
+            return -ex(e[1])
+        if k == "bool":
+            return ex(e[1]).bool()
+        if k == "rany":
+            return ex(e[1]).any()
+        if k == "rall":
+            return ex(e[1]).all()
+        if k == "rxor":
+            return ex(e[1]).xor()
+        if k == "matches":
+            return ex(e[1]).matches(*e[2])
+        if k == "bsel":
+            return ex(e[1]).bit_select(ex(e[2]), e[3])
+        if k == "wsel":
+            return ex(e[1]).word_select(ex(e[2]), e[3])
+        if k == "arr":
+            return Array([ex(p) for p in e[2]])[ex(e[1])]
+        a, b = ex(e[1]), ex(e[2])
+        return {"and": lambda: a & b, "or": lambda: a | b, "xor": lambda: a ^ b, "add": lambda: a + b,
+                "sub": lambda: a - b, "mul": lambda: a * b, "div": lambda: a // b, "mod": lambda: a % b,
+                "shl": lambda: a << b, "shr": lambda: a >> b, "eq": lambda: a == b, "ne": lambda: a != b,
+                "lt": lambda: a < b, "le": lambda: a <= b, "gt": lambda: a > b, "ge": lambda: a >= b}[k]()
     m = Module()
-    for dom, sid, lo, hi, e, cond in c["st"]:
-        st = sig[sid][lo:hi].eq(ex(e))
-        if cond is not None:
-            with m.If(ex(cond)):
-                m.d[dom] += st
+    for st in c["st"]:
+        cnt[0] += 1
+        if isinstance(st, dict):
+            if "mem" in st:
+                tgt = sig[st["sid"]][st["lo"]:st["hi"]]
+                mi = MemoryInstance(data=MemoryData(shape=len(tgt), depth=2, init=[]), attrs={})
+                if st.get("wport"):
+                    mi.write_port(domain="a", addr=Const(0, 1), data=Const(0, len(tgt)), en=Const(1, 1))
+                mi.read_port(domain=st["mem"], addr=ex(st["addr"]), data=tgt,
+                             en=Const(1, 1), transparent_for=())
+                m.submodules[f"mem{cnt[0]}"] = mi
+            elif "iob" in st:
+                tgt = sig[st["sid"]][st["lo"]:st["hi"]]
+                m.submodules[f"iob{cnt[0]}"] = IOBufferInstance(IOPort(len(tgt), name=f"io{cnt[0]}"),
+                                                                i=tgt, o=ex(st["iob"]), oe=ex(st["oe"]))
+            elif "inst" in st:
+                m.submodules[f"inst{cnt[0]}"] = Instance("foo", i_x=ex(st["inst"]),
+                                                         o_y=sig[st["sid"]][st["lo"]:st["hi"]])
+            elif "print" in st:
+                m.d[st.get("dom", "comb")] += Print(ex(st["print"]))
+            elif "assert" in st:
+                m.d[st.get("dom", "comb")] += Assert(ex(st["assert"]))
+            continue
+        dom, sid, lo, hi, e, cond = st
+        a = sig[sid][lo:hi].eq(ex(e))
+        if cond is None:
+            m.d[dom] += a
+        elif cond[0] == "case":
+            with m.Switch(ex(cond[1])):
+                with m.Case(cond[2]):
+                    m.d[dom] += a
         else:
-            m.d[dom] += st
+            with m.If(ex(cond)):
+                m.d[dom] += a
     return m, [sig[i] for i in c.get("ports", [])]
 
 
@@ -615,7 +782,8 @@ def gen_cyc(tier, rng):
         if r < 0.85:
             return ["cat", [rexpr(srcs, depth - 1, word) for _ in range(rng.randrange(1, 3))]]
         if word:
-            return ["add", rexpr(srcs, depth - 1, False), rexpr(srcs, depth - 1, False)]
+            return [rng.choice(["add", "sub", "mul", "shl", "shr", "lt", "eq"]),
+                    rexpr(srcs, depth - 1, False), rexpr(srcs, depth - 1, False)]
         return ["c", rng.randrange(2), 1]
 
     n = 600 if tier == "quick" else 4000
@@ -636,7 +804,7 @@ def gen_cyc(tier, rng):
                 srcs.append(ring[rng.randrange(i)])       # extra back edges keep it interesting
             word = (not word_used) and rng.random() < 0.35
             e = rexpr(srcs, rng.randrange(0, 3), word)
-            if "add" in repr(e):
+            if any(f"'{o}'" in repr(e) for o in WORD2):
                 word_used = True
             leaves = repr(e)
             if f"['b', {prev[0]}, {prev[1]}]" not in leaves:
@@ -679,6 +847,118 @@ def gen_cyc(tier, rng):
                              ["comb", 0, 0, 1, ["b", 2, 0], None]]})
         cases.append({"k": "cyc", "sigw": {"0": w, "2": 2}, "ports": [2], "variant": "rotate",
                       "st": [["comb", 0, 0, w, ["cat", [["sl", 0, w - 1, w], ["sl", 0, 0, w - 1]]], None]]})
+    cases += gen_kinds(tier, rng)
+    return cases
+
+
+def live(fb, w=4):
+    """a w-bit value whose only live bit is bit fb of signal 0 (pure wiring)"""
+    parts = []
+    if fb:
+        parts.append(["c", 0, fb])
+    parts.append(["b", 0, fb])
+    if w - fb - 1:
+        parts.append(["c", 0, w - fb - 1])
+    return ["cat", parts]
+
+
+def kind_exprs(X, fb):
+    """one expression per cell kind the emitter can produce, with the value X (live bit fb of signal 0) on each
+    operand position; I2/I4/I1 are inputs"""
+    I1, I2, I4 = ["b", 2, 0], ["sl", 2, 0, 2], ["sl", 3, 0, 4]
+    Xb = ["esl", X, fb, fb + 1]
+    ks = {}
+    for o in WORD1:
+        ks[o] = [o, X]
+    for o in WORD2:
+        ks[o + ".l"] = [o, X, I2]
+        if o in ("shl", "shr"):
+            ks[o + ".r"] = [o, I4, ["esl", X, 0, 2] if fb < 2 else ["esl", X, 2, 4]]
+        else:
+            ks[o + ".r"] = [o, I4, X]
+    for o in ("mul", "div", "mod", "shr", "lt", "le", "gt", "ge", "add", "sub", "eq"):
+        ks["s" + o] = [o, ["sgn", X], ["sgn", I2]] if o != "shr" else [o, ["sgn", X], I2]
+    ks["sshl"] = ["shl", ["sgn", X], I2]
+    ks["not"] = ["not", X]
+    for o in BIT2:
+        ks[o] = [o, X, I4]
+        ks[o + ".sx"] = [o, ["sgn", ["esl", X, 0, 2]], I4] if fb < 2 else [o, I4, ["sgn", ["esl", X, 2, 4]]]
+    ks["mux.d"] = ["mux", I1, X, I4]
+    ks["mux.e"] = ["mux", I1, I4, X]
+    ks["mux.s"] = ["mux", Xb, I4, ["not", I4]]
+    ks["bsel.v"] = ["bsel", X, I2, 4]
+    ks["bsel.o"] = ["bsel", I4, ["esl", X, 0, 2] if fb < 2 else ["esl", X, 2, 4], 4]
+    ks["wsel.v"] = ["wsel", X, I1, 2]
+    ks["wsel.o"] = ["wsel", I4, Xb, 2]
+    ks["part.static"] = ["esl", ["cat", [X, I2]], 0, 4]
+    ks["matches"] = ["matches", X, ["1--0", "-01-"]]
+    ks["matches.dc"] = ["matches", X, ["----"]]
+    ks["arr.i"] = ["arr", Xb, [I4, ["not", I4]]]
+    ks["arr.e"] = ["arr", I1, [X, I4]]
+    ks["any"] = ["xor", X, ["any", 4]]
+    ks["init"] = ["and", X, ["cat", [["init"], ["init"], ["init"], ["init"]]]]
+    return ks
+
+
+def gen_kinds(tier, rng):
+    """for every cell kind: the cycle a[tb] -> cell(.. a[fb] ..)[rb] -> a[tb], entering and leaving the cell at the
+    same bit index (fb = tb) or at different ones (closed by a[fb] = a[tb] ^ input), each with an acyclic twin"""
+    cases = []
+    sigw = {"0": 4, "2": 2, "3": 4}
+    arrangements = [("same", 0, 0), ("same", 2, 2), ("same", 3, 3), ("up", 1, 3), ("down", 2, 0)]
+    if tier == "thorough":
+        arrangements = [("same", i, i) for i in range(4)] + [("up" if f < t else "down", f, t)
+                                                             for f in range(4) for t in range(4) if f != t]
+
+    def emit(kind, arr, fb, tb, body, extra=()):
+        for cyc in (True, False):
+            st = [list(x) if isinstance(x, list) else dict(x) for x in body]
+            if fb != tb:
+                # closing edge a[fb] <- a[tb]; the acyclic twin closes from an input instead
+                st.append(["comb", 0, fb, fb + 1, ["xor", ["b", 0, tb] if cyc else ["b", 3, tb], ["b", 2, 1]], None])
+            elif not cyc:
+                continue
+            cases.append({"k": "cyc", "sigw": sigw, "st": st + list(extra), "ports": [2, 3],
+                          "variant": f"kind:{arr}", "kind": kind})
+    for arr, fb, tb in arrangements:
+        X = live(fb)
+        for kind, E in kind_exprs(X, fb).items():
+            w = eshape(E)[0]
+            rb = min(tb, w - 1)
+            emit(kind, arr, fb, tb, [["comb", 0, tb, tb + 1, ["esl", E, rb, rb + 1], None]])
+            if arr == "same":
+                # acyclic twin of the same-index arrangement: the live bit is another one, nothing closes the loop
+                fo = (fb + 1) % 4
+                E2 = kind_exprs(live(fo), fo)[kind]
+                cases.append({"k": "cyc", "sigw": sigw, "ports": [2, 3], "variant": "kind:same-cut", "kind": kind,
+                              "st": [["comb", 0, tb, tb + 1, ["esl", E2, min(tb, eshape(E2)[0] - 1),
+                                                              min(tb, eshape(E2)[0] - 1) + 1], None]]})
+        # whole-word forms: a = f(a) (every bit enters and leaves at its own index)
+        if arr == "same" and fb == 0:
+            A = ["sl", 0, 0, 4]
+            for kind, E in (("shl.word", ["shl", A, ["sl", 2, 0, 2]]), ("shr.word", ["shr", A, ["sl", 2, 0, 2]]),
+                            ("mux.word", ["mux", ["b", 2, 0], ["esl", ["shl", ["xor", A, ["sl", 3, 0, 4]], ["sl", 2, 0, 2]], 0, 4],
+                                          ["sl", 3, 0, 4]]),
+                            ("and-shl.bit", ["esl", ["shl", ["and", A, ["c", 4, 4]], ["sl", 2, 0, 2]], 2, 3])):
+                lo, hi = (2, 3) if kind == "and-shl.bit" else (0, 4)
+                cases.append({"k": "cyc", "sigw": sigw, "ports": [2, 3], "variant": "kind:word", "kind": kind,
+                              "st": [["comb", 0, lo, hi, E, None]]})
+        # statement-level and fragment-level kinds
+        Xb = ["b", 0, fb]
+        src = ["b", 3, tb]
+        emit("if", arr, fb, tb, [["comb", 0, tb, tb + 1, src, Xb]])
+        emit("if.word", arr, fb, tb, [["comb", 0, tb, tb + 1, src, X]])
+        emit("case.dc", arr, fb, tb, [["comb", 0, tb, tb + 1, src, ["case", X, "-1--" if fb == 2 else "1---"]]])
+        emit("assign.partial", arr, fb, tb, [["comb", 0, 0, 4, ["sl", 3, 0, 4], ["b", 2, 0]],
+                                             ["comb", 0, tb, tb + 1, Xb, ["b", 2, 1]]])
+        emit("flipflop", arr, fb, tb, [["a", 0, tb, tb + 1, Xb, None]])
+        emit("mem.async", arr, fb, tb, [{"mem": "comb", "addr": Xb, "sid": 0, "lo": tb, "hi": tb + 1}])
+        emit("mem.sync", arr, fb, tb, [{"mem": "a", "addr": Xb, "sid": 0, "lo": tb, "hi": tb + 1, "wport": 1}])
+        emit("iob.o", arr, fb, tb, [{"iob": Xb, "oe": ["b", 2, 0], "sid": 0, "lo": tb, "hi": tb + 1}])
+        emit("iob.oe", arr, fb, tb, [{"iob": src, "oe": Xb, "sid": 0, "lo": tb, "hi": tb + 1}])
+        emit("instance", arr, fb, tb, [{"inst": X, "sid": 0, "lo": tb, "hi": tb + 1}])
+        emit("print+assert", arr, fb, tb, [["comb", 0, tb, tb + 1, ["xor", Xb, ["b", 2, 0]], None]],
+             extra=[{"print": X}, {"assert": ["rany", X]}, {"print": X, "dom": "a"}, {"assert": ["rany", X], "dom": "a"}])
     return cases
 
 
@@ -703,7 +983,7 @@ def coq_term(c):
 def classify(c):
     if c["k"] == "drv":
         return "drv:" + c.get("tag", "")
-    return "cyc:" + c.get("variant", "")
+    return "cyc:" + c.get("variant", "") + ("/" + c["kind"] if "kind" in c and c["variant"] == "kind:same" else "")
 
 
 def _count_sources(f):
